@@ -693,3 +693,35 @@ func lastLines(s string, n int) string {
 	}
 	return strings.Join(l, " / ")
 }
+
+// ---------------------------------------------------------------------------
+// reference tokeniser, written from the documented rule: normalise (exported nlp.NormalizeText), lower-case, split on
+// anything that is not a letter or a digit, drop tokens shorter than two bytes and stop words (exported nlp.StopWords)
+
+var refStop = nlp.StopWords()
+
+func refTokens(s string) []string {
+	if s == "" {
+		return nil
+	}
+	s = strings.ToLower(nlp.NormalizeText(s))
+	out := []string{}
+	for _, w := range strings.FieldsFunc(s, func(r rune) bool { return !unicode.IsLetter(r) && !unicode.IsNumber(r) }) {
+		if len(w) < 2 || refStop[w] {
+			continue
+		}
+		out = append(out, w)
+	}
+	return out
+}
+
+// docTokens: the set of indexed words of a command (all four fields)
+func docTokens(c *database.Command) map[string]bool {
+	m := map[string]bool{}
+	for _, f := range []string{strings.ToLower(c.Command), strings.ToLower(c.Description), strings.ToLower(strings.Join(c.Keywords, " ")), strings.ToLower(strings.Join(c.Tags, " "))} {
+		for _, t := range refTokens(f) {
+			m[t] = true
+		}
+	}
+	return m
+}
